@@ -472,6 +472,41 @@ func execC19(c c19Case) vkit.Result {
 	}
 
 	stopDT() // real hop: every forwarded batch has been answered by node B after this
+
+	// An event belongs to the sink it was handed to: transmissions read the
+	// destination, key and dataset when they send, not when they are given the
+	// event, so what counts is the event as it is once the handlers have returned.
+	later := rec.reread()
+	for i, s := range rec.all() {
+		l := later[i]
+		if c.Hop && strings.HasPrefix(s.Via, "peer-") {
+			continue // handed on to the real DirectTransmission, which owns it now
+		}
+		vid, _ := s.Fields["vid"].(string)
+		diff := ""
+		switch {
+		case l.APIHost != s.APIHost:
+			diff = "destination"
+		case l.APIKey != s.APIKey:
+			diff = "api-key"
+		case l.Dataset != s.Dataset:
+			diff = "dataset"
+		case l.SampleRate != s.SampleRate:
+			diff = "sample-rate"
+		case !l.Timestamp.Equal(s.Timestamp):
+			diff = "timestamp"
+		case l.Probe != s.Probe:
+			diff = "probe-mark"
+		case !reflect.DeepEqual(c19ClientFields(l.Fields), c19ClientFields(s.Fields)):
+			diff = "fields"
+		}
+		if diff != "" {
+			hostThen := strings.NewReplacer(fake.URL, "<honeycomb-api>").Replace(s.APIHost)
+			hostNow := strings.NewReplacer(fake.URL, "<honeycomb-api>").Replace(l.APIHost)
+			res.Violate("C19/changed-after-handover/"+s.Via+"/"+diff, "event %s (trace %q) was handed to %s with destination %q key %q dataset %q rate %d probe=%v; after the request was answered the same event reads destination %q key %q dataset %q rate %d probe=%v (stressed=%v)",
+				vid, s.TraceID, s.Via, hostThen, s.APIKey, s.Dataset, s.SampleRate, s.Probe, hostNow, l.APIKey, l.Dataset, l.SampleRate, l.Probe, c.Stressed)
+		}
+	}
 	atOwner := map[string][]rtSnap{}
 	for _, s := range recB.all() {
 		vid, _ := s.Fields["vid"].(string)
@@ -623,6 +658,13 @@ func execC19(c c19Case) vkit.Result {
 				switch {
 				case s.Via == "collector-immediate":
 					imm++
+					if _, kept := c19Immediate(id); kept {
+						res.Class("stress-kept/" + e.Class)
+						// the collector sends a kept span to Honeycomb itself: that is where it must still be addressed
+						if l := later[s.Seq]; l.APIHost != fake.URL || l.Probe {
+							res.Violate("C19/stress/kept-span-destination", "%s: the span the collector kept now reads destination %q probe=%v, expected the Honeycomb API and no probe mark", where, strings.NewReplacer(fake.URL, "<honeycomb-api>").Replace(l.APIHost), l.Probe)
+						}
+					}
 				case strings.HasPrefix(s.Via, "peer-") && s.Probe && c19Foreign(id):
 					res.Class("stress-probe-to-owner")
 				default:
